@@ -79,6 +79,12 @@ def run(chk, prog):
         want = P * q if not with_mean else P * (q - mean) ** 2
         chk.check(z.value == 0 and acc.value is not None and sp.expand(acc.value - want) == 0, "R2", A.loc(fn, {"line": acc.line}),
                   "%s: sums %s over i (got %s)" % (nm, want, acc.value), "%s:term:%s" % (nm, acc.value))
+        # the accumulator starts from zero for every bunch: its reset is executed once per iteration of the bunch loop,
+        # outside the sum loop and under no condition
+        zl = [id(L) for L in z.loops]
+        zg = [g for g, pol in z.guards if isinstance(g, dict) and g.get("k") not in ("SwitchCase", "Catch")]
+        chk.check(len(acc.loops) == 2 and zl == [id(acc.loops[0])] and not zg, "R2", A.loc(fn, {"line": z.line}),
+                  "%s: the accumulator is reset for every bunch (reset inside the bunch loop, outside the sum)" % nm, "%s:reset-per-bunch" % nm)
         iL = acc.loops[-1]
         chk.check(iL.lo == 0 and str(iL.hi) == "maxi" or (iL.lo == 0 and iL.hi is not None and "ite" in str(iL.hi)), "R2", A.loc(fn, {"line": acc.line}),
                   "%s: the sum runs over the whole axis" % nm, "%s:sum-range:%s" % (nm, iL.hi))
